@@ -111,6 +111,11 @@ def pair_one(item):
     elif who == 'abs-wrong': b_chk = check([f"gtxn 1 {field}"])       # checks itself, not T0
     else: b_chk = []
     b = ["#pragma version 8"] + b_chk + ["int 1", "return"]
+    if who in ('abs-branch', 'rel-branch'):
+        # T1 has SEVERAL accepting exits and excludes the dangerous value at each of them in a different way: T0 is not a payment
+        # (nothing to close), or it is one and its CloseRemainderTo is checked.  No single block of T1 carries the whole argument.
+        rd = (lambda f: [f"gtxn 0 {f}"]) if who == 'abs-branch' else (lambda f: ["txn GroupIndex", "int 1", "-", f"gtxns {f}"])
+        b = ["#pragma version 8"] + rd('TypeEnum') + ["int pay", "==", "bnz is_pay", "int 1", "return", "is_pay:"] + check(rd(field)) + ["int 1", "return"]
     srcA, srcB = "\n".join(a) + "\n", "\n".join(b) + "\n"
     t0 = {'txn_id': 'T0', 'txn_type': 'pay' if det == 'can-close-account' else 'txn', 'logic_sig': {'contract': 'A', 'function': 'whole'}}
     t1 = {'txn_id': 'T1', 'txn_type': 'txn', 'logic_sig': {'contract': 'B', 'function': 'whole'}}
@@ -138,7 +143,7 @@ def pair_one(item):
         r = O.parse_res(drv.run_many([O.env_line(0, 2000, 2, self_idx, txns)])[0])
         approved = approved and r['tag'] == 'accept'
     # which configurations let the checker see T0 at all
-    visible = (who == 'self') or (who == 'abs' and form == 'absolute') or (who == 'rel' and form == 'relative')
+    visible = (who == 'self') or (who in ('abs', 'abs-branch') and form == 'absolute') or (who in ('rel', 'rel-branch') and form == 'relative')
     if approved and not reported:
         res['viol'].append(f"{det}: the group (T0 index 0 carrying the dangerous value, both contracts approve) exists but T0 is not reported vulnerable [who={who}, config={form}]")
     if (not approved) and visible and reported:
@@ -289,7 +294,7 @@ def c13(cx):
             cx.known_seen['F24'] = f"{what} [{r['name']}: {r['known'][0]}]"
     pitems = []
     for det in FIELDS:
-        for who in ('nobody', 'self', 'abs', 'rel', 'abs-wrong'):
+        for who in ('nobody', 'self', 'abs', 'rel', 'abs-wrong') + (('abs-branch', 'rel-branch') if det == 'can-close-account' else ()):
             for form in ('absolute', 'relative'):
                 pitems.append({'name': f'pair/{det}/{who}/{form}', 'det': det, 'who': who, 'form': form})
     pres = engine.run_items_with(pair_one, pitems)
